@@ -743,7 +743,10 @@ def check_types(
         """
 
         # Check for an '*args'-like argument
-        if len(arguments) > len(named_arguments):
+        if any(
+            sig.parameters[name].kind is inspect.Parameter.VAR_POSITIONAL
+            for name in named_arguments
+        ):
             (
                 star_args_name,
                 star_args_values,
@@ -783,7 +786,10 @@ def check_types(
         """
 
         # Check for an '**kwargs'-like argument
-        if kwargs.keys() != named_kwargs.keys():
+        if any(
+            sig.parameters[name].kind is inspect.Parameter.VAR_KEYWORD
+            for name in named_kwargs
+        ):
             (
                 star_kwargs_name,
                 star_kwargs_dict,
